@@ -561,6 +561,7 @@ func main() {
 	selfcheck := flag.Bool("selfcheck", false, "determinism self-check")
 	runs := flag.Int("runs", 0, "override number of runs")
 	oneIdx := flag.Int("idx", -1, "debug: execute a single run index and print its trace")
+	warm := flag.Bool("warm", false, "build the E1 and E2 workers once to warm the toolchain caches, then exit")
 	flag.Parse()
 	if wd, err := os.Getwd(); err == nil {
 		if _, err := os.Stat(filepath.Join(wd, "MANIFEST.json")); err == nil {
@@ -572,6 +573,14 @@ func main() {
 	}
 	seed, _ := strconv.ParseUint(envOr("VERIF_SEED", "1"), 10, 64)
 
+	if *warm {
+		for _, p := range []string{"C09", "C14"} {
+			b := doBuild(props[p], p)
+			b.cleanup()
+		}
+		fmt.Println("warm ok")
+		os.Exit(0)
+	}
 	if *replay != "" {
 		os.Exit(doReplay(*replay))
 	}
